@@ -236,9 +236,13 @@ def h_entries_insert(ctx, lmax=2 ** 60, kmax=2 ** 33):
             # it is monotone in entries_len, so bounds stored earlier keep it
             m.oblige(s, z3.And(z3.ULE(z3.ZeroExt(32, kl) + z3.ZeroExt(32, dl), ks), z3.ULE(ks, E2), z3.UGE(E2, E)), "post:stored-bound-satisfies-PB", where)
             w = s.ghost["writes"]
-            (d1, s1), (d2, s2) = w[-2], w[-1]
-            m.oblige(s, z3.And(z3.BoolVal(d1.alloc == aid and s1.alloc == "K"), d1.off == L2 - E2, d1.len == k,
-                               z3.BoolVal(d2.alloc == aid and s2.alloc == "D"), d2.off == L2 - E2 + k, d2.len == d),
+            last = w[-2:]
+            kw_ = [x for x in last if x[1].alloc == "K"]
+            dw_ = [x for x in last if x[1].alloc == "D"]
+            m.oblige(s, z3.BoolVal(len(kw_) == 1 and len(dw_) == 1), "post:key-and-value-each-copied-once", where)
+            (d1, s1), (d2, s2) = kw_[0], dw_[0]
+            m.oblige(s, z3.And(z3.BoolVal(d1.alloc == aid), d1.off == L2 - E2, d1.len == k, s1.off == bv(0),
+                               z3.BoolVal(d2.alloc == aid), d2.off == L2 - E2 + k, d2.len == d, s2.off == bv(0)),
                      "post:entry-bytes-placement", where)
             # the new bytes do not overlap the bound table (incl. the new bound)
             m.oblige(s, z3.UGE(L2 - E2, bv(ctx.ES) * B2), "post:bytes-vs-bounds-overlap", where)
@@ -258,7 +262,7 @@ def h_entries_insert(ctx, lmax=2 ** 60, kmax=2 ** 33):
 
 
 # ------------------------------------------------------------------------------------------------ H2
-def h_reallocate(ctx, lmax=2 ** 61):
+def h_reallocate(ctx, lmax=2 ** 56):
     def body(res):
         m = ctx.machine()
         st = State()
@@ -286,6 +290,8 @@ def h_reallocate(ctx, lmax=2 ** 61):
             def is_bytes(dw, sw):
                 return z3.And(z3.BoolVal(dw.alloc == aid and sw.alloc == "A0"), dw.off == L2 - E, sw.off == L - E, dw.len == E)
             if len(w) == 2:
+                if not m.feasible(s, z3.Not(is_bytes(*w[0]))):
+                    w = [w[1], w[0]]        # the two copies may come in either order
                 m.oblige(s, is_bounds(*w[0]), "post:bounds-copied", where)
                 m.oblige(s, is_bytes(*w[1]), "post:bytes-copied-to-back", where)
             elif len(w) == 1:
